@@ -149,16 +149,30 @@ def classify(g, gen_file, res, unit_prop):
             o = g.linemap[csite["line_start"] - 1]
             site = o
         if tag is None:
-            if site is not None and site[0] == "src":
-                where = norm_src(site[3])
-                if generic and not re.match(r"C\d+\.", generic):
-                    generic = "%s.%s" % (unit_prop, generic)
-                name = generic if generic else "%s.%s.safety.%s" % (unit_prop, g.unit, kind)
-                tag = "%s@%s" % (name, where)
-            elif site is not None:
-                tag = "%s.%s.proof.%s@%s:%d" % (unit_prop, g.unit, kind, site[1], site[2])
-            else:
-                tag = "%s.%s.unlocated.%s" % (unit_prop, g.unit, kind)
+            # safety obligations (panic freedom, preconditions of stand-ins, proof glue) belong to the code, not to
+            # one clause: they count for every property the unit serves
+            props_ = list(getattr(g, "props", None) or [unit_prop])
+            tags_ = []
+            for pr_ in props_:
+                if site is not None and site[0] == "src":
+                    where = norm_src(site[3])
+                    gen_ = re.sub(r"^C\d+\.", "", generic) if generic else None
+                    name = ("%s.%s" % (pr_, gen_)) if gen_ else "%s.%s.safety.%s" % (pr_, g.unit, kind)
+                    tags_.append("%s@%s" % (name, where))
+                elif generic:
+                    tags_.append("%s.%s" % (pr_, re.sub(r"^C\d+\.", "", generic)))
+                elif site is not None:
+                    tags_.append("%s.%s.proof.%s@%s:%d" % (pr_, g.unit, kind, site[1], site[2]))
+                else:
+                    tags_.append("%s.%s.unlocated.%s" % (pr_, g.unit, kind))
+            for one in tags_:
+                failures.append({
+                    "tag": one, "property": one.split(".", 1)[0], "kind": kind, "message": msg,
+                    "site": ({"file": site[1], "line": site[2], "text": site[3] if len(site) > 3 else None}
+                             if site else None),
+                    "rendered": d.get("rendered", ""),
+                })
+            continue
         for one in (tag.split() if re.match(r"C\d+\.\S+(\s+C\d+\.\S+)+$", tag) else [tag]):
             prop = one.split(".", 1)[0] if re.match(r"C\d+\.", one) else unit_prop
             failures.append({
